@@ -1,6 +1,7 @@
 package extractor
 
 import (
+	"fmt"
 	"strings"
 
 	"github.com/internetarchive/Zeno/pkg/models"
@@ -21,6 +22,13 @@ func IsPDF(URL *models.URL) bool {
 
 func PDF(URL *models.URL) (outlinks []*models.URL, err error) {
 	defer URL.RewindBody()
+
+	// pdfcpu panics on some malformed documents; a bad PDF must only cost its own links, not the process
+	defer func() {
+		if r := recover(); r != nil {
+			outlinks, err = nil, fmt.Errorf("panic while parsing PDF: %v", r)
+		}
+	}()
 
 	annots, err := pdfapi.Annotations(URL.GetBody(), nil, nil)
 	if err != nil {
